@@ -56,6 +56,15 @@ func FormatPeek(buf []byte, n int) ([]byte, error) {
 	return append(buf, byte('0'+n%10)), nil
 }
 
+var lastOut []byte
+
+// FormatRetain keeps a slice of the caller's buffer in a package-level variable (C16.append retention control).
+func FormatRetain(buf []byte, n int) ([]byte, error) {
+	out := append(buf, byte('0'+n%10))
+	lastOut = out[len(buf):]
+	return out, nil
+}
+
 // ParsePanics panics and indexes without a guard (C18.T1 / C18.T2 controls).
 func ParsePanics(input []byte) (int, error) {
 	if len(input) == 3 {
